@@ -7,6 +7,7 @@ import (
 	"errors"
 	"fmt"
 	"reflect"
+	"runtime"
 	"sort"
 	"strings"
 	"time"
@@ -412,6 +413,52 @@ func (w *world) do(op map[string]J) (res map[string]J) {
 		res["rules"] = kbInfo(kb)
 		if op["wm"] == true {
 			res["wm"] = wmInfo(kb)
+		}
+	case "loader":
+		// C20: one loader on arbitrary bytes; the observation is error / panic / wall time / bytes allocated
+		data, _ := hex.DecodeString(get("hex"))
+		var ms runtime.MemStats
+		runtime.ReadMemStats(&ms)
+		before := ms.TotalAlloc
+		t0 := time.Now()
+		var err error
+		func() {
+			defer func() {
+				if r := recover(); r != nil {
+					res["panic"] = fmt.Sprint(r)
+				}
+			}()
+			switch get("kind") {
+			case "grl":
+				lib := ast.NewKnowledgeLibrary()
+				err = builder.NewRuleBuilder(lib).BuildRuleFromResource("K", "1", pkg.NewBytesResource(data))
+			case "jsonrule":
+				lib := ast.NewKnowledgeLibrary()
+				jr, e := pkg.NewJSONResourceFromResource(pkg.NewBytesResource(data))
+				if e != nil {
+					err = e
+					return
+				}
+				err = builder.NewRuleBuilder(lib).BuildRuleFromResource("K", "1", jr)
+			case "jsonfact":
+				dctx := ast.NewDataContext()
+				err = dctx.AddJSON("J", data)
+			case "grb":
+				lib := ast.NewKnowledgeLibrary()
+				_, err = lib.LoadKnowledgeBaseFromReader(bytes.NewReader(data), true)
+			}
+		}()
+		res["ms"] = float64(time.Since(t0).Microseconds()) / 1000.0
+		runtime.ReadMemStats(&ms)
+		res["alloc"] = ms.TotalAlloc - before
+		res["n"] = len(data)
+		res["err"] = err != nil
+		if err != nil {
+			m := err.Error()
+			if len(m) > 200 {
+				m = m[:200]
+			}
+			res["msg"] = m
 		}
 	case "jsonbuild":
 		// pkg/JsonResource.go in front of the builder
